@@ -4,6 +4,7 @@
   `AccInv`; hence the tree an accepted run returns satisfies `TreeAcc` in the base scope, and the
   tables it leaves keep the standing facts (`EnvFacts`).
 -/
+import XotModel.Lemmas.ParseQName
 import XotModel.Lemmas.AcceptedStep
 import XotModel.Lemmas.AcceptedLineEnds
 
@@ -213,12 +214,13 @@ theorem attribute_acc {b b' : Builder} (pfx loc value : StrSpan) (h : AccInv b)
 
 theorem step_acc {b b' : Builder} (t : Token) (h : AccInv b) (ht : t.accLex = true) (hr : b.step t = .ok b') :
     AccInv b' ∧ EnvReach b.env b'.env := by
+  replace hr := Builder.step_ok_core hr
   cases t with
   | «attribute» pfx loc value sp =>
     simp only [Token.accLex, Bool.and_eq_true] at ht
     have hq := ht.1
     simp only [qnameOK, Bool.and_eq_true] at hq
-    simp only [Builder.step] at hr
+    simp only [Builder.stepCore] at hr
     split at hr
     · exact prefix_acc _ _ _ h hq.1.2 ht.2 hr
     · next hp =>
@@ -232,7 +234,7 @@ theorem step_acc {b b' : Builder} (t : Token) (h : AccInv b) (ht : t.accLex = tr
         exact ⟨h1, by rw [h2]; exact EnvReach.refl _⟩
   | text t =>
     simp only [Token.accLex, Bool.and_eq_true, Bool.not_eq_true', List.isEmpty_eq_false_iff] at ht
-    simp only [Builder.step, Builder.text] at hr
+    simp only [Builder.stepCore, Builder.text] at hr
     split at hr
     · cases hr
     · rename_i content hdec
@@ -244,7 +246,7 @@ theorem step_acc {b b' : Builder} (t : Token) (h : AccInv b) (ht : t.accLex = tr
         by simp only [e1]; exact EnvReach.refl _⟩
   | cdata t sp =>
     simp only [Token.accLex] at ht
-    simp only [Builder.step, Builder.cdata] at hr
+    simp only [Builder.stepCore, Builder.cdata] at hr
     split at hr
     · simp only [Step.ok.injEq] at hr; subst hr; exact ⟨h, EnvReach.refl _⟩
     · rename_i hne
@@ -257,7 +259,7 @@ theorem step_acc {b b' : Builder} (t : Token) (h : AccInv b) (ht : t.accLex = tr
         by simp only [e1]; exact EnvReach.refl _⟩
   | elementStart pfx loc sp =>
     simp only [Token.accLex, qnameOK, Bool.and_eq_true, Bool.not_eq_true', List.isEmpty_eq_false_iff] at ht
-    simp only [Builder.step, Builder.element, Step.ok.injEq] at hr
+    simp only [Builder.stepCore, Builder.element, Step.ok.injEq] at hr
     subst hr
     refine ⟨⟨h.facts, h.chain, fun e he => ?_⟩, EnvReach.refl _⟩
     simp only [Option.some.injEq] at he
@@ -273,7 +275,7 @@ theorem step_acc {b b' : Builder} (t : Token) (h : AccInv b) (ht : t.accLex = tr
       exact ⟨⟨h1.facts h.facts, h2, fun e he => by rw [h3] at he; cases he⟩, h1⟩
     | close pfx loc => exact closeElement_acc pfx loc sp h hr
     | empty =>
-      simp only [Builder.step] at hr
+      simp only [Builder.stepCore] at hr
       cases hb : b.openElement with
       | ok b1 =>
         rw [hb] at hr
@@ -284,7 +286,7 @@ theorem step_acc {b b' : Builder} (t : Token) (h : AccInv b) (ht : t.accLex = tr
       | panic => rw [hb] at hr; cases hr
   | comment t sp =>
     simp only [Token.accLex] at ht
-    simp only [Builder.step, Builder.comment, Step.ok.injEq] at hr
+    simp only [Builder.stepCore, Builder.comment, Step.ok.injEq] at hr
     subst hr
     have hval : ValAcc b.env b.nsStack (.comment (normalizeLineEnds t.text)) := by
       obtain ⟨c1, c2, c3, c4⟩ := commentAcc_normalize ht
@@ -293,7 +295,7 @@ theorem step_acc {b b' : Builder} (t : Token) (h : AccInv b) (ht : t.accLex = tr
     exact ⟨⟨h.facts, addLeaf_chain (.comment (normalizeLineEnds t.text)) h.chain hval rfl rfl, h.eb⟩,
       EnvReach.refl _⟩
   | pi target content sp =>
-    simp only [Builder.step] at hr
+    simp only [Builder.stepCore] at hr
     split at hr
     · cases hr
     rename_i hres
@@ -322,14 +324,14 @@ theorem step_acc {b b' : Builder} (t : Token) (h : AccInv b) (ht : t.accLex = tr
     exact addLeaf_chain (b := { b with env := (b.env.internName target.text Env.noNamespace).1 }) _
       (ChainAcc.mono hreach.app h.chain) hval rfl rfl
   | declaration v e s sp =>
-    simp only [Builder.step] at hr
+    simp only [Builder.stepCore] at hr
     split at hr
     · cases hr
     · simp only [Step.ok.injEq] at hr; subst hr; exact ⟨h, EnvReach.refl _⟩
-  | dtdStart sp => simp [Builder.step] at hr
-  | dtdEnd sp => simp [Builder.step] at hr
-  | emptyDtd sp => simp [Builder.step] at hr
-  | entityDecl sp => simp [Builder.step] at hr
+  | dtdStart sp => simp [Builder.stepCore] at hr
+  | dtdEnd sp => simp [Builder.stepCore] at hr
+  | emptyDtd sp => simp [Builder.stepCore] at hr
+  | entityDecl sp => simp [Builder.stepCore] at hr
 
 theorem run_acc (ts : List Token) (lexErr : Option Nat) :
     ∀ {b b' : Builder}, AccInv b → (∀ t ∈ ts, t.accLex = true) → b.run ts lexErr = .ok b' →
